@@ -399,6 +399,12 @@ func mapKinds(u *types.Map) (k string, kind string, ok bool) {
 			return k, "int", true
 		}
 	}
+	if n, ok := u.Elem().(*types.Named); ok {
+		if _, isStruct := n.Underlying().(*types.Struct); isStruct && n.Obj().Pkg() != nil && strings.HasPrefix(n.Obj().Pkg().Path(), modPath) {
+			// struct values are boxed: the map stores a box number, the value is a function of it
+			return k, "box:" + qualifiedElem(n), true
+		}
+	}
 	return k, "opaque", true
 }
 
@@ -493,11 +499,54 @@ func (e *Ev) heapMapGet(m VMapRef, key Val, n ast.Node) (val Val, has Term) {
 	case m.Kind == "int":
 		return VInt{sIte(has, raw, "0")}, has
 	}
+	if strings.HasPrefix(m.Kind, "box:") && m.V != nil {
+		zero := fx.zero(m.V)
+		return iteVal(has, e.unbox(m, raw, n), zero), has
+	}
 	if !e.contract && m.V != nil {
 		// the contents of values of this kind are not modelled: some value of the type
 		return fx.fresh(m.V, "mv"), has
 	}
 	return VOpaque{}, has
+}
+
+// unbox: the struct value a box number stands for (components are uninterpreted functions of it).
+func (e *Ev) unbox(m VMapRef, id Term, n ast.Node) Val {
+	return e.namedShape(e.fx.zero(m.V), "box_"+sanitizeIdent(strings.TrimPrefix(m.Kind, "box:")), []string{id}, []string{sortInt}, n)
+}
+
+// iteVal: component-wise if-then-else over two values of the same shape (pure).
+func iteVal(c Term, a, b Val) Val {
+	switch x := a.(type) {
+	case VInt:
+		return VInt{sIte(c, x.T, b.(VInt).T)}
+	case VBool:
+		return VBool{sIte(c, x.T, b.(VBool).T)}
+	case VErr:
+		if y, ok := b.(VErr); ok {
+			return VErr{sIte(c, x.T, y.T)}
+		}
+		return VErr{sIte(c, x.T, "0")}
+	case VRef:
+		if y, ok := b.(VRef); ok {
+			return VRef{sIte(c, x.T, y.T), x.Elem}
+		}
+		return VRef{sIte(c, x.T, "0"), x.Elem}
+	case VStr:
+		y := b.(VStr)
+		return VStr{B: sIte(c, x.B, y.B), O: sIte(c, x.O, y.O), L: sIte(c, x.L, y.L)}
+	case VStrs:
+		y := b.(VStrs)
+		return VStrs{B: sIte(c, x.B, y.B), O: sIte(c, x.O, y.O), L: sIte(c, x.L, y.L), N: sIte(c, x.N, y.N), Wrap: x.Wrap, WrapField: x.WrapField}
+	case VStruct:
+		y := b.(VStruct)
+		out := VStruct{TName: x.TName, Names: x.Names, F: map[string]Val{}}
+		for _, f := range x.Names {
+			out.F[f] = iteVal(c, x.F[f], y.F[f])
+		}
+		return out
+	}
+	return a
 }
 
 func (e *Ev) mapRefLookup(m VMapRef, key Val, commaOk bool, n ast.Node) Val {
@@ -534,9 +583,15 @@ func (x *Exec) mapRefStore(l *ast.IndexExpr, m VMapRef, v Val, st *State) {
 	case VNil:
 		vt = "0"
 	default:
-		if m.Kind == "opaque" {
+		switch {
+		case m.Kind == "opaque":
 			vt = "0"
-		} else {
+		case strings.HasPrefix(m.Kind, "box:"):
+			// a fresh box number (from the allocation counter, hence different from every other one)
+			// that stands for exactly this value
+			vt = e.allocRef()
+			fx.assume(st.pc, e.identicalVal(e.unbox(m, vt, l), v, l))
+		default:
 			unsupp(l.Pos(), fx.prog.fset, "map value of kind %T", v)
 		}
 	}
